@@ -53,9 +53,11 @@ CHECKS = {
             "exactly the accepted words of the window after start (or equal to it when not strict); predecessors likewise in decreasing "
             "order; that sequence is unique; strict=False adds exactly the start word; successor/predecessor are the head = least/greatest "
             "element, None iff the set is empty; predecessors are refused iff the language is infinite (isfinite model proved exact, no "
-            "other error possible); without max_length the state-count bound loses no word of a finite language. Specification model: the "
-            "explicit stack machine of DFA.successors is not modelled; its output (whole generated list, single-step result, exception "
-            "kind) is compared literally with the proved model on generated DFAs x keys x starts x windows x directions.",
+            "other error possible); without max_length the state-count bound loses no word of a finite language. Additionally a mirror model "
+            "of the explicit stack machine of DFA.successors (both directions, with the row-8 repair) is proved to generate exactly that "
+            "list whenever it returns (partial correctness, theorems ..._partial; termination within the driver's budget is not proved, "
+            "an Err Fuel answer fails the check). The implementation's output (whole generated list, single-step result, exception "
+            "kind) is compared literally with both models on generated DFAs x keys x starts x windows x directions.",
             "Symbols are numbered by rank under the user's key (injective keys only). Open known findings: start string with a symbol "
             "outside the alphabet (KeyError), empty alphabet (IndexError).", "7/C14"),
 }
